@@ -273,8 +273,10 @@ class SimDevice:
         pkt = rc.v3_handshake_reply(0, body)
         if "ptype" in opts:
             pkt = pkt[:5] + bytes([(pkt[5] & 0xF0) | (opts["ptype"] & 0xF)]) + pkt[6:]
+        if "padnibble" in opts:
+            pkt = pkt[:5] + bytes([(pkt[5] & 0x0F) | ((opts["padnibble"] & 0xF) << 4)]) + pkt[6:]
         conn.send_stream(pkt, delay=delay, cuts=opts.get("cuts"), gap=opts.get("gap", 0.0))
-        self.log.append(WireEvent(self.loop.time(), conn.id, "hs_reply", note=kind + (" mutated" if ("mutate" in opts or "key" in opts or "ptype" in opts) else "")))
+        self.log.append(WireEvent(self.loop.time(), conn.id, "hs_reply", note=kind + (" mutated" if ("mutate" in opts or "key" in opts or "ptype" in opts or "padnibble" in opts) else "")))
 
     def _data(self, conn: DevConn, frame: bytes) -> None:
         action = None
